@@ -31,7 +31,7 @@ ASSUMPTIONS = [
     "an interface is attached to at most one link (as in every model the topology API builds)",
     "links carry no delegations (none of the shipped models has any)",
 ]
-BUDGET = {"quick": 3000, "thorough": 60000}
+BUDGET = {"quick": 2000, "thorough": 60000}
 MIN_LABEL_FRACTION = {"one-kind-node": 0.5, "ids>=2": 0.4, "pooled": 0.25, "multi-id-node": 0.2,
                       "no-one-kind-node": 0.08, "guids": 0.2, "two-sites": 0.25}
 
@@ -267,6 +267,35 @@ def run_case(case):
         # the ARM still untouched after the re-keying of its partitions
         if S.canon(arm) != pre:
             bad("C13/rewrite_delegations/arm-modified", _diff("ARM", pre, S.canon(arm)))
+
+        # ---- history clause: the model grows, the SAME handle partitions it again. A resource added after the first
+        # call (delegated to a new id, connected to nothing) must get its own partition and appear in no other one.
+        if not v and "shipped" not in case:
+            import json as _json
+            late_id, late_del = "late-worker", "late-delegation"
+            try:
+                arm.add_node(node_id=late_id, label="NetworkNode",
+                             props={"Name": "late-worker", "Type": "Server", "StitchNode": "false",
+                                    S.P_CD: _json.dumps({late_del: {"pool_id": "_", "capacities": {"core": 4}}})})
+                res2 = arm.generate_adms()
+            except Exception as e:
+                bad(f"C13/generate_adms/second-call/raised/{type(e).__name__}",
+                    f"second generate_adms on the same handle after adding a resource: {type(e).__name__}: {e}")
+                res2 = None
+            if res2 is not None:
+                labels.append("second-call")
+                if sorted(res2.keys()) != sorted(D + [late_del]):
+                    bad("C13/generate_adms/second-call/models-per-id",
+                        f"after adding a resource delegated to {late_del!r}: models for {sorted(res2.keys())}, "
+                        f"delegation ids are {sorted(D + [late_del])}")
+                for d2, g2 in sorted(res2.items()):
+                    n2, _e2 = S.canon(NetworkXADMGraph(graph_id=g2.graph_id, importer=imp))
+                    if d2 == late_del and late_id not in n2:
+                        bad("C13/generate_adms/second-call/delegated-resource-missing",
+                            f"partition {d2} lacks the resource added before the second call")
+                    if d2 != late_del and late_id in n2:
+                        bad("C13/generate_adms/second-call/foreign-resource",
+                            f"partition {d2} contains {late_id}, delegated only to {late_del} and connected to nothing")
     return {"v": v, "nt": nt, "labels": labels}
 
 
